@@ -110,6 +110,9 @@ EXTRA_PROPS = [
     'until (p or q): some (b1 or b2)',
     'globally: (a1 or a2 as A) causes (b1 or b2)',
     'globally: (a1 or a2 or a3) forbids (b1 or b2 or b3 or b4) within 2 s',
+    'globally: no (a {False} or b {False})', 'after (a {False} or b {False}): some c', 'globally: (a {False} or b {False}) causes c within 1 s',
+    'after (p {False} or q {False}) until r: (a {False} or b) requires (c {False} or d {False})', 'globally: no (a {True} or b {False})',
+    'globally: d forbids (a as A {False} or b as B {False} or c)',
 ]
 
 
